@@ -325,6 +325,50 @@ def c08_repeat_task(arg):
         s.cleanup()
 
 
+def c08_show_filters_task(_):
+    """`log show` with every combination of stream flags, target filter and command filter on one stored
+    run (2 targets x 2 commands, one stream of one task empty): one header per selected non-empty log
+    followed by its bytes, nothing else."""
+    import itertools
+    s = sc.Scratch("c08show")
+    try:
+        ts = [{"path": "t0"}, {"path": "t1"}]
+        r = sc.Repo(s, "r", ts, commands={t["path"]: {"build": "x", "test": "x"} for t in ts}, init_git=False)
+        want = {}
+        for t in ("t0", "t1"):
+            for c in ("build", "test"):
+                so = ("%s %s stdout line\nsecond\n" % (t, c)).encode()
+                se = b"" if (t, c) == ("t1", "test") else ("%s %s stderr\n" % (t, c)).encode()
+                lines = ["out " + so.hex()] + (["err " + se.hex()] if se else []) + ["exit 0"]
+                r.set_script(t, c, lines)
+                want[("stdout.zst", t, c)] = so
+                want[("stderr.zst", t, c)] = se
+        res = r.mr("run", "-c", "build", "test", env=r.trace_env())
+        if res.code != 0:
+            return {"judged": 1, "v": [("e2e-run-failed", "exit %s %s" % (res.code, res.err[:200]), {"cli_c08_show": 1})]}
+        v = []
+        judged = 0
+        for streams in (["--stdout"], ["--stderr"], ["--stdout", "--stderr"]):
+            for tf in ([], ["t0"], ["t1"], ["t0", "t1"]):
+                for cf in ([], ["build"], ["test"], ["build", "test"]):
+                    args = ["log", "show"] + streams + (["-t"] + tf if tf else []) + (["-c"] + cf if cf else [])
+                    ls = r.mr(*args)
+                    judged += 1
+                    got = p_hist.parse_log_show(ls.out)
+                    exp = sorted((f, t, c, b) for (f, t, c), b in want.items() if b
+                                 and ((f == "stdout.zst" and "--stdout" in streams) or (f == "stderr.zst" and "--stderr" in streams))
+                                 and (not tf or t in tf) and (not cf or c in cf))
+                    if ls.code != 0 or got != exp:
+                        v.append(("e2e-log-show-filter", "%s: blocks %s, expected %s (exit %s)" % (" ".join(args), [(b[0], b[1], b[2], len(b[3])) for b in got], [(b[0], b[1], b[2], len(b[3])) for b in exp], ls.code)))
+        return {"judged": judged, "v": [(sig, d, {"cli_c08_show": 1}) for sig, d in v[:5]]}
+    except common.EngineError as e:
+        return {"engine_error": str(e)}
+    except Exception:
+        return {"engine_error": traceback.format_exc()[-1200:]}
+    finally:
+        s.cleanup()
+
+
 def run_slice(prop, tier):
     if prop == "C17":
         sizes = [3, 60, 400] if tier == "quick" else [3, 60, 160, 400, 1500]
@@ -336,6 +380,7 @@ def run_slice(prop, tier):
         tasks = [(n, l, e, k) for (n, l, e) in scripts for k in ((1, 3) if tier == "quick" else (1, 2, 3, 5))]
         res = common.pmap(c08_task, tasks)
         res += common.pmap(c08_repeat_task, [(how, k) for how in ("-c twice", "sequence twice", "sequence mix") for k in (1, 3)])
+        res += common.pmap(c08_show_filters_task, [0])
     else:
         return 0, []
     errs = [r["engine_error"] for r in res if "engine_error" in r]
@@ -361,7 +406,9 @@ def merge(result, prop, tier):
 
 
 def replay_case(prop, case):
-    if "cli_c08_repeat" in case:
+    if "cli_c08_show" in case:
+        r = c08_show_filters_task(0)
+    elif "cli_c08_repeat" in case:
         r = c08_repeat_task(tuple(case["cli_c08_repeat"]))
     elif "cli_c17" in case:
         r = c17_task(case["cli_c17"])
